@@ -9,11 +9,18 @@ Trace == ndJsonDeserialize("trace.ndjson")
 VARIABLES l, viol
 tvars == <<l, viol>>
 Init == l = 1 /\ viol = {}
+RECURSIVE FromBE(_)
+FromBE(b) == IF b = <<>> THEN 0 ELSE 256 * FromBE(SubSeq(b, 1, Len(b) - 1)) + b[Len(b)]
+RECURSIVE SumPowFrom(_, _)
+SumPowFrom(vs, i) == IF i > Len(vs) THEN 0 ELSE FromBE(vs[i].power) + SumPowFrom(vs, i + 1)
+SumPow(vs) == SumPowFrom(vs, 1)
 Check(e) ==
   IF ~e.ok THEN {"EncoderFailsOnValidInput_" \o e.kind}
   ELSE IF e.kind = "valset" THEN
      (IF e.bytes = ValsetPre(e.vs) THEN {} ELSE {"ValidatorSetEncodingIsAbiEncodeOfValidatorArray"})
      \cup (IF e.gohash = e.spechash THEN {} ELSE {"ValidatorSetHashMatchesContract"})
+     \* the power threshold stored with (and signed into) the checkpoint is two thirds of the set's total power
+     \cup (IF "gothr" \in DOMAIN e /\ e.gothr # (2 * SumPow(e.vs)) \div 3 THEN {"PowerThresholdIsTwoThirdsOfTotalPower"} ELSE {})
   ELSE IF e.kind = "checkpoint" THEN (IF e.gohash = e.spechash THEN {} ELSE {"CheckpointMatchesDomainSeparatedHash"})
   ELSE IF e.kind = "attest" THEN (IF e.gohash = e.spechash THEN {} ELSE {"AttestationDigestMatchesVerifyOracleData"})
   ELSE IF e.kind = "query" THEN (IF e.gohash = e.spechash THEN {} ELSE {"BridgeQueryIdMatchesTokenBridge"})
